@@ -19,6 +19,7 @@ pub struct Axis {
 }
 
 impl Axis {
+    pub fn is_point(&self) -> bool { self.d_below == 0.0 && self.d_above == 0.0 }
     pub fn d_min(&self) -> f64 { self.d_default - self.d_below }
     pub fn d_max(&self) -> f64 { self.d_default + self.d_above }
     pub fn norm_to_design(&self, n: f64) -> f64 {
@@ -127,7 +128,9 @@ pub struct Source {
 }
 
 #[derive(Clone, Debug)]
-pub struct Instance { pub family: Option<String>, pub style: Option<String>, pub name: Option<String>, pub ps_name: Option<String>, pub norm: Vec<f64> }
+pub struct Instance { pub family: Option<String>, pub style: Option<String>, pub name: Option<String>, pub ps_name: Option<String>, pub norm: Vec<f64>,
+    /// leave out the <dimension> of axes on which the instance sits at the default (valid: a missing dimension means the axis default)
+    pub omit_default_dims: bool }
 
 #[derive(Clone, Debug)]
 pub struct Rule { pub name: String, pub condition_sets: Vec<Vec<(usize, Option<f64>, Option<f64>)>>, pub subs: Vec<(String, String)> }
@@ -174,16 +177,18 @@ pub struct Profile {
     pub kerning: bool,
     pub instances: bool,
     pub flat_maps: bool,
+    /// add an axis with minimum == default == maximum (kept in the source, not part of fvar)
+    pub point_axis: bool,
 }
 
 impl Profile {
     pub fn outlines() -> Profile {
         Profile { min_axes: 1, max_axes: 3, max_glyphs: 8, min_glyphs: 2, outlines: true, cubic: true, components: 4, transforms: true, mixed: true, sparse: 3,
-            order_variety: false, non_export: true, metrics_class_a: true, vertical: true, half_coords: true, maps: true, awkward_axes: false, multi_codepoints: false, ps_names: false, anchors: false, kerning: false, instances: false, flat_maps: false }
+            order_variety: false, non_export: true, metrics_class_a: true, vertical: true, half_coords: true, maps: true, awkward_axes: false, multi_codepoints: false, ps_names: false, anchors: false, kerning: false, instances: false, flat_maps: false, point_axis: false }
     }
     pub fn glyphset() -> Profile {
         Profile { min_axes: 0, max_axes: 1, max_glyphs: 14, min_glyphs: 1, outlines: false, cubic: false, components: 4, transforms: false, mixed: true, sparse: 0,
-            order_variety: true, non_export: true, metrics_class_a: false, vertical: false, half_coords: false, maps: false, awkward_axes: false, multi_codepoints: true, ps_names: true, anchors: false, kerning: false, instances: false, flat_maps: false }
+            order_variety: true, non_export: true, metrics_class_a: false, vertical: false, half_coords: false, maps: false, awkward_axes: false, multi_codepoints: true, ps_names: true, anchors: false, kerning: false, instances: false, flat_maps: false, point_axis: false }
     }
 }
 
@@ -200,7 +205,10 @@ fn dy(g: &mut Gen, lo: i64, hi: i64, half: bool) -> f64 {
 }
 
 impl SynthFont {
-    pub fn is_variable(&self) -> bool { !self.axes.is_empty() }
+    pub fn is_variable(&self) -> bool { self.axes.iter().any(|a| !a.is_point()) }
+    /// normalized coordinates as the font sees them: point axes are not part of fvar
+    pub fn font_coords(&self, norm: &[f64]) -> Vec<f64> { norm.iter().zip(&self.axes).filter(|(_, a)| !a.is_point()).map(|(n, _)| crate::ot::f2(*n)).collect() }
+    pub fn var_axes(&self) -> Vec<&Axis> { self.axes.iter().filter(|a| !a.is_point()).collect() }
     pub fn full_sources(&self) -> impl Iterator<Item = (usize, &Source)> { self.sources.iter().enumerate().filter(|(_, s)| s.layer.is_none()) }
     pub fn glyph(&self, name: &str) -> Option<&Glyph> { self.glyphs.iter().find(|g| g.name == name) }
     pub fn design_loc(&self, si: usize) -> Vec<f64> { self.sources[si].norm.iter().zip(&self.axes).map(|(n, a)| a.norm_to_design(*n)).collect() }
@@ -488,8 +496,16 @@ impl SynthFont {
                     norm.push(cands[ig.below(cands.len())]);
                 }
                 let style = inst_names[ig.below(inst_names.len())].to_string();
-                instances.push(Instance { family: Some("Synth".into()), style: Some(style.clone()), name: Some(format!("Synth {style} {k}")), ps_name: if ig.chance(1, 3) { Some(format!("Synth-{}", style.replace(' ', ""))) } else { None }, norm });
+                instances.push(Instance { family: Some("Synth".into()), style: Some(style.clone()), name: Some(format!("Synth {style} {k}")), ps_name: if ig.chance(1, 3) { Some(format!("Synth-{}", style.replace(' ', ""))) } else { None }, norm, omit_default_dims: ig.chance(1, 3) });
             }
+        }
+        // ---- point axis (min == default == max): every location sits at its only value
+        let mut pg2 = g.fork(4);
+        if p.point_axis && !axes.is_empty() && pg2.chance(1, 4) {
+            let at = pg2.below(axes.len() + 1);
+            axes.insert(at, Axis { name: "Optical".into(), tag: "opsz".into(), d_default: 12.0, d_below: 0.0, d_above: 0.0, map: None, hidden: false, label: None });
+            for s in sources.iter_mut() { s.norm.insert(at, 0.0); }
+            for i in instances.iter_mut() { i.norm.insert(at, 0.0); }
         }
         SynthFont { upem, axes, sources, glyphs, glyph_order, skip_export, ps_names, categories_explicit: false, features: None, instances, rules: vec![], rules_processing_last: false, lib_filters: vec![] }
     }
